@@ -480,6 +480,11 @@ CAMPAIGNS['C12'].append(
          'failing): every directory the build created is recorded by exactly '
          'one claim and removed by clean', nontrivial=nt_threads,
          post='tag_all:C12', weight=0.6))
+CAMPAIGNS['C09'].append(
+    camp('c09-many-threads', 'threads', {'n_threads': (5, 8)},
+         THREAD_RULE + '; 5-8 threads (up to 24 operations) in one to three '
+         'shared directory chains', nontrivial=nt_threads,
+         post='tag_all:C09', weight=0.4))
 RACE_RULE = ('a key (build_file path / subbuild name+arguments) performed '
              'directly by one thread while another thread reuses or '
              're-executes a cached subtree (depth 1-2) that contains it; '
